@@ -642,9 +642,36 @@ func f5(w *World, r *Report) {
 // isZeroBig: v is X.ToBig() / big.NewInt(0) where X is a package-level uint256
 // initialised to NewInt(0) and never stored to again, or a literal zero.
 func (w *World) isZeroBig(v ssa.Value) bool {
+	// what a module helper hands back: every return of it must be such a zero
+	helperZero := func(call *ssa.Call, idx int) (bool, bool) {
+		g := call.Common().StaticCallee()
+		if g == nil || !w.InModule(g) || g.Blocks == nil {
+			return false, false
+		}
+		n := 0
+		for _, b := range g.Blocks {
+			if ret, isR := lastInstr(b).(*ssa.Return); isR && b != g.Recover {
+				n++
+				if idx >= len(ret.Results) || !w.isZeroBig(ret.Results[idx]) {
+					return false, true
+				}
+			}
+		}
+		return n > 0, true
+	}
+	if ex, isEx := stripConv(v).(*ssa.Extract); isEx {
+		if call, isCall := ex.Tuple.(*ssa.Call); isCall {
+			z, _ := helperZero(call, ex.Index)
+			return z
+		}
+		return false
+	}
 	c, ok := stripConv(v).(*ssa.Call)
 	if !ok {
 		return false
+	}
+	if z, isHelper := helperZero(c, 0); isHelper {
+		return z
 	}
 	cc := c.Common()
 	f := cc.StaticCallee()
